@@ -174,7 +174,7 @@ def feed(inst, fn, chunk):
     except Exception as e:  # any other exception is an observation too
         inst.obs.append('crash:' + type(e).__name__)
         inst.dropped = True
-    return '[' + ';'.join(inst.obs) + '] %d' % len(inst.unpacker.buf)
+    return '[' + ';'.join(inst.obs) + '] %d' % compat.unconsumed(inst.unpacker)
 
 
 def gen_stream(rng, tier):
